@@ -91,6 +91,20 @@ CLAIMS = {
              "'faces avoiding removed edges survive' (rotation lists only lose entries the face never steps to) is not yet proved; that clause rests on the "
              "implementation-side oracle together with C01's model.",
         ref="§7 C12"),
+    "C09": dict(
+        technique="Lean 4 proof (narrow/widen round trip for every width of the ladder read from the source; equality reflexive/symmetric/detecting) + exact state correspondence incl. IEEE float32 rounding",
+        text="Kernel-checked theorems about the executable model of __getstate__/__setstate__/__eq__: the dtype ladder regenerated from the source picks, for every "
+             "n_vertices < 2^64, a width that holds every index (thresholds 255/256, 65535/65536 as instances); narrowing indices below n_vertices and int8-fitting "
+             "crossings is lossless, so the restored lattice has identical edges, crossings and vertex count and single-precision positions; getstate succeeds iff "
+             "the crossings fit; pickling drops every cache slot (C02's state machine); equality is reflexive, symmetric, false on any changed edge list, crossing "
+             "list or size and on any coordinate displaced beyond 1/(100·√n), true after a round trip whenever rounding stays within the tolerance (2^-24 < tolerance "
+             "for n ≤ 70000 proved). The implementation's pickled state (dtype widths, narrowed arrays, float32 positions via the model's exact round-to-nearest-even) "
+             "and == verdicts are compared with the model; every protocol 2..5 × pickling point × threshold size, a panel of 22 public operations on original vs "
+             "restored, legacy dict states and files, an all-pairs equality panel incl. non-lattices and ±10% perturbations are evaluated on the implementation.",
+        note="Trusted: Lean kernel/Mathlib/standard axioms; translator (literal tables); CPython pickle; harness. float32 rounding is modelled exactly for normal-range values "
+             "(compared bit for bit) but its error bound is a hypothesis of latEq_roundtrip, not proved from the rounding model. Operations on 70000-vertex lattices are "
+             "limited to the state-level checks (dense adjacency would need 4.9 GB). Fix D11 (edgeless lattices could not be pickled) is recorded in known_findings.json.",
+        ref="§7 C09"),
 }
 
 PENDING_REASON = "check not built yet in this revision (work in progress; see DESIGN.md §7 for the planned Lean model and tie)"
